@@ -474,6 +474,71 @@ def c23_fs_reload(a1: bool, edit: int, a2: bool, a3: bool, auto_reload: bool, ch
 
 CONDITIONS.append({"fn": "c23_fs_reload", "quick": 60, "thorough": 120, "sel_only": True})
 
+# ---- constructor options: the caching file system loader answers like the plain one built with the same options -------
+FSO_NAMES = ["t.liquid", "t", "link.liquid", "out.liquid", "sub/t.liquid", "sub/link.liquid", "latin.liquid", "second.liquid", "second", "../outside.liquid", "nosuch", "linkdir/t.liquid"]
+
+
+def _request_any(env, name, use_async):
+    try:
+        return request(env, name, None, use_async, 3)
+    except Exception as e:          # e.g. UnicodeDecodeError for a file not in the configured encoding: the same from both loaders
+        return ("exc", type(e).__name__)
+
+
+def _fs_options_sweep(reject, ext_i, enc_i, two_paths, ns):
+    """Failing (name, mode, caching answer, plain answer) for every name of the pool, requested twice sync and async."""
+    top = tempfile.mkdtemp(prefix="c23o-", dir=WORK)
+    saved = FS.asyncio
+    FS.asyncio = _Asyncio()
+    bad = []
+    try:
+        root, other, outside = os.path.join(top, "root"), os.path.join(top, "other"), os.path.join(top, "outside")
+        for d in (os.path.join(root, "sub"), other, outside):
+            os.makedirs(d)
+        files = {os.path.join(root, "t.liquid"): b"root t {{ g }}", os.path.join(root, "t.html"): b"root t html", os.path.join(root, "sub", "t.liquid"): b"sub t",
+                 os.path.join(root, "latin.liquid"): "caf\u00e9 {{ g }}".encode("latin-1"), os.path.join(other, "second.liquid"): b"second", os.path.join(other, "second.html"): b"second html",
+                 os.path.join(other, "t.liquid"): b"other t", os.path.join(outside, "outside.liquid"): b"OUTSIDE", os.path.join(top, "outside.liquid"): b"OUTSIDE2"}
+        for path, data in files.items():
+            with open(path, "wb") as fd:
+                fd.write(data)
+        os.symlink(os.path.join(root, "t.liquid"), os.path.join(root, "link.liquid"))
+        os.symlink(os.path.join(outside, "outside.liquid"), os.path.join(root, "out.liquid"))
+        os.symlink(os.path.join(root, "t.liquid"), os.path.join(root, "sub", "link.liquid"))
+        os.symlink(os.path.join(root, "sub"), os.path.join(root, "linkdir"))
+        ext = (None, ".liquid", ".html")[ext_i]
+        enc = ("utf-8", "latin-1")[enc_i]
+        sp = [root, other] if two_paths else root
+        kw = {"namespace_key": "ns"} if ns else {}
+        env_c = Environment(loader=CachingFileSystemLoader(sp, encoding=enc, ext=ext, reject_symlinks=reject, **kw))
+        env_p = Environment(loader=FileSystemLoader(sp, encoding=enc, ext=ext, reject_symlinks=reject))
+        for name in FSO_NAMES:
+            for use_async in (False, True, False):
+                rc, rp = _request_any(env_c, name, use_async), _request_any(env_p, name, use_async)
+                if rc != rp:
+                    bad.append({"name": name, "async": use_async, "caching": repr(rc)[:200].replace(top, "<tmp>"), "plain": repr(rp)[:200].replace(top, "<tmp>")})
+                    break
+        return bad
+    finally:
+        FS.asyncio = saved
+        shutil.rmtree(top, ignore_errors=True)
+
+
+def c23_fs_options(reject: bool, ext_i: int, enc_i: int, two_paths: bool, ns: bool) -> bool:
+    """
+    pre: 0 <= ext_i <= 2 and 0 <= enc_i <= 1
+    post: _
+    """
+    if excluded("c23_fs_options", locals()):
+        return True
+    args = (cbool(reject), cint(ext_i, 0, 2), cint(enc_i, 0, 1), cbool(two_paths), cbool(ns))
+    return finish(untraced(lambda: not _fs_options_sweep(*args)))
+
+
+DETAIL = globals().get("DETAIL", {})
+DETAIL["c23_fs_options"] = lambda reject, ext_i, enc_i, two_paths, ns: {"reject_symlinks": reject, "ext": (None, ".liquid", ".html")[ext_i], "encoding": ("utf-8", "latin-1")[enc_i],
+                                                                          "two search paths": two_paths, "failing": _fs_options_sweep(reject, ext_i, enc_i, two_paths, ns)[:3]}
+CONDITIONS.append({"fn": "c23_fs_options", "quick": 60, "thorough": 120, "sel_only": True})
+
 # ---- namespaces of every truthiness, given by keyword or through the render context (selector pool) ------------------
 class UidLoader(BaseLoader):
     """Per-namespace templates: '<uid>/<name>' when a uid is given (keyword or render context), else '<name>'."""
